@@ -10,6 +10,7 @@ package main
 import (
 	"bytes"
 	"fmt"
+	stdio "io"
 	"math"
 	"net"
 	"strconv"
@@ -510,8 +511,11 @@ func fragLine(frags [][]byte) string {
 }
 
 // readBackStream decodes through the connection-backed input (NewDataInputNet) while the bytes
-// arrive in the given fragments; a field may be split over any number of fragments.
-func readBackStream(ops []op, frags [][]byte) string {
+// arrive in the given fragments; a field may be split over any number of fragments.  `tail` is what
+// the peer sends right behind the program's bytes (the next message): after the program has been
+// read it must still be on the connection, byte for byte, for whoever reads the connection next —
+// "consuming exactly those bytes" on the stream path.
+func readBackStream(ops []op, frags [][]byte, tail, expectLeft []byte) string {
 	c1, c2 := net.Pipe()
 	go func() {
 		defer c1.Close()
@@ -519,6 +523,9 @@ func readBackStream(ops []op, frags [][]byte) string {
 			if _, err := c1.Write(f); err != nil {
 				return
 			}
+		}
+		if len(tail) > 0 {
+			c1.Write(tail)
 		}
 	}()
 	defer c2.Close()
@@ -531,7 +538,16 @@ func readBackStream(ops []op, frags [][]byte) string {
 			raw[i] = readRaw(in, x.kind)
 			early[i] = raw[i].String()
 		}
-		res = fmt.Sprintf("ok %s 0", renderLate(raw, early))
+		rest := "0"
+		if len(expectLeft) > 0 {
+			got := make([]byte, len(expectLeft))
+			c2.SetReadDeadline(time.Now().Add(3 * time.Second))
+			n, err := stdio.ReadFull(c2, got)
+			if err != nil || !bytes.Equal(got, expectLeft) {
+				rest = fmt.Sprintf("next-message-damaged(%d of %d bytes left on the connection: %s)", n, len(expectLeft), vh.Hex(got[:n]))
+			}
+		}
+		res = fmt.Sprintf("ok %s %s", renderLate(raw, early), rest)
 	})
 	if !o.OK() {
 		return "fail:" + o.String()
@@ -637,15 +653,37 @@ func main() {
 			streamBudget--
 			rep.Count("stream-read")
 			frags := fragmentsOf(p.bytes, rng)
-			sb := readBackStream(ops, frags)
+			var tail, tailAll []byte
+			if rng.Chance(50) {
+				tailAll = rng.Bytes(1 + rng.Intn(40))
+				tail = tailAll
+				if rng.Chance(50) { // the next message arrives in the same fragment as the end of this one
+					k := 1 + rng.Intn(len(tail))
+					last := append(append([]byte{}, frags[len(frags)-1]...), tail[:k]...)
+					tail = tail[k:]
+					frags = append(append([][]byte{}, frags[:len(frags)-1]...), last)
+				}
+			}
+			sb := readBackStream(ops, frags, tail, tailAll)
 			if sb != want {
-				rep.Fail("property", "stream-roundtrip:"+firstDiffKind(ops, sb, want), "read back over a fragmented connection differs from what was written",
-					map[string]interface{}{"ops": vh.Clip(p.line, 2000), "bytes": vh.Clip(vh.Hex(p.bytes), 2000), "fragments": vh.Clip(fragLine(frags), 2000), "read": vh.Clip(sb, 2000)})
+				key := "stream-roundtrip:" + firstDiffKind(ops, sb, want)
+				if strings.Contains(sb, "next-message-damaged") {
+					key = "stream-consumes-beyond-the-program"
+				}
+				rep.Fail("property", key, "read back over a fragmented connection differs from what was written, or took bytes of the next message",
+					map[string]interface{}{"ops": vh.Clip(p.line, 2000), "bytes": vh.Clip(vh.Hex(p.bytes), 2000), "fragments": vh.Clip(fragLine(frags), 2000), "tail": vh.Hex(tail), "read": vh.Clip(sb, 2000)})
 			}
 			// the model's connection-backed decoder (P.runC over the same fragments)
 			if len(p.bytes) < 20000 {
 				rep.Count("stream-model")
-				add("RS "+p.line+" "+fragLine(frags), sb, "stream-decode:"+kindsOf(ops), p.line)
+				mfrags, msb := frags, sb
+				if len(tail) > 0 {
+					mfrags = append(append([][]byte{}, frags...), tail)
+				}
+				if strings.HasSuffix(sb, " 0") { // the model reports what is still to arrive
+					msb = strings.TrimSuffix(sb, " 0") + fmt.Sprintf(" %d", len(tailAll))
+				}
+				add("RS "+p.line+" "+fragLine(mfrags), msb, "stream-decode:"+kindsOf(ops), p.line)
 			}
 		}
 		// the model as reference encoder and reference decoder
@@ -968,6 +1006,121 @@ func main() {
 		}
 		rep.CountN("sweep32", 1<<32)
 		rep.Evaluations += 1 << 32
+	}
+
+	// 10. the exported helpers at any offset.  Every reader helper takes (buf, pos) and every packing
+	// helper (buf, off, v); the stream methods only ever pass 0, callers elsewhere (packs, the UDP and
+	// TCP headers) do not.  A field embedded at offset p must read as the same field at offset 0 (which
+	// the model ties), and a setter must write exactly its w bytes at `off` — the bytes ToBytesX gives —
+	// and leave every other byte of the buffer alone.
+	{
+		type rd struct {
+			name string
+			w    int
+			f    func(b []byte, pos int) string
+		}
+		readers := []rd{
+			{"ToBool", 1, func(b []byte, p int) string { return fmt.Sprint(gio.ToBool(b, p)) }},
+			{"ToShort", 2, func(b []byte, p int) string { return fmt.Sprint(gio.ToShort(b, p)) }},
+			{"ToUShort", 2, func(b []byte, p int) string { return fmt.Sprint(gio.ToUShort(b, p)) }},
+			{"ToUshort", 2, func(b []byte, p int) string { return fmt.Sprint(gio.ToUshort(b, p)) }},
+			{"ToShortLittle", 2, func(b []byte, p int) string { return fmt.Sprint(gio.ToShortLittle(b, p)) }},
+			{"ToUshortLittle", 2, func(b []byte, p int) string { return fmt.Sprint(gio.ToUshortLittle(b, p)) }},
+			{"ToInt3", 3, func(b []byte, p int) string { return fmt.Sprint(gio.ToInt3(b, p)) }},
+			{"ToInt", 4, func(b []byte, p int) string { return fmt.Sprint(gio.ToInt(b, p)) }},
+			{"ToUint", 4, func(b []byte, p int) string { return fmt.Sprint(gio.ToUint(b, p)) }},
+			{"ToIntLittle", 4, func(b []byte, p int) string { return fmt.Sprint(gio.ToIntLittle(b, p)) }},
+			{"ToUintLittle", 4, func(b []byte, p int) string { return fmt.Sprint(gio.ToUintLittle(b, p)) }},
+			{"ToLong5", 5, func(b []byte, p int) string { return fmt.Sprint(gio.ToLong5(b, p)) }},
+			{"ToLong6", 6, func(b []byte, p int) string { return fmt.Sprint(gio.ToLong6(b, p)) }},
+			{"ToLong", 8, func(b []byte, p int) string { return fmt.Sprint(gio.ToLong(b, p)) }},
+			{"ToLongLittle", 8, func(b []byte, p int) string { return fmt.Sprint(gio.ToLongLittle(b, p)) }},
+			{"ToUlongLittle", 8, func(b []byte, p int) string { return fmt.Sprint(gio.ToUlongLittle(b, p)) }},
+			{"ToFloat", 4, func(b []byte, p int) string { return fmt.Sprint(math.Float32bits(gio.ToFloat(b, p))) }},
+			{"ToDouble", 8, func(b []byte, p int) string { return fmt.Sprint(math.Float64bits(gio.ToDouble(b, p))) }},
+			{"Get", 7, func(b []byte, p int) string { return vh.Hex(gio.Get(b, p, 7)) }},
+		}
+		type wr struct {
+			name string
+			w    int
+			set  func(b []byte, off int, v uint64) []byte
+			enc  func(v uint64) []byte
+		}
+		writers := []wr{
+			{"SetBytesBool", 1, func(b []byte, o int, v uint64) []byte { return gio.SetBytesBool(b, o, v&1 == 1) }, func(v uint64) []byte { return gio.ToBytesBool(v&1 == 1) }},
+			{"SetBytesShort", 2, func(b []byte, o int, v uint64) []byte { return gio.SetBytesShort(b, o, int16(v)) }, func(v uint64) []byte { return gio.ToBytesShort(int16(v)) }},
+			{"SetBytesInt3", 3, func(b []byte, o int, v uint64) []byte { return gio.SetBytesInt3(b, o, int32(v)) }, func(v uint64) []byte { return gio.ToBytesInt3(int32(v)) }},
+			{"SetBytesInt", 4, func(b []byte, o int, v uint64) []byte { return gio.SetBytesInt(b, o, int32(v)) }, func(v uint64) []byte { return gio.ToBytesInt(int32(v)) }},
+			{"SetBytesLong5", 5, func(b []byte, o int, v uint64) []byte { return gio.SetBytesLong5(b, o, int64(v)) }, func(v uint64) []byte { return gio.ToBytesLong5(int64(v)) }},
+			{"SetBytesLong", 8, func(b []byte, o int, v uint64) []byte { return gio.SetBytesLong(b, o, int64(v)) }, func(v uint64) []byte { return gio.ToBytesLong(int64(v)) }},
+			{"SetBytesFloat", 4, func(b []byte, o int, v uint64) []byte {
+				return gio.SetBytesFloat(b, o, math.Float32frombits(uint32(v)))
+			}, func(v uint64) []byte { return gio.ToBytesFloat(math.Float32frombits(uint32(v))) }},
+			{"SetBytesDouble", 8, func(b []byte, o int, v uint64) []byte { return gio.SetBytesDouble(b, o, math.Float64frombits(v)) }, func(v uint64) []byte { return gio.ToBytesDouble(math.Float64frombits(v)) }},
+			{"SetBytes", 6, func(b []byte, o int, v uint64) []byte { return gio.SetBytes(b, o, gio.ToBytesLong(int64(v))[:6]) }, func(v uint64) []byte { return gio.ToBytesLong(int64(v))[:6] }},
+		}
+		field := func(w int) []byte {
+			b := rng.Bytes(w)
+			if rng.Chance(40) {
+				for i := range b {
+					b[i] = byte(rng.PickInt([]int{0, 1, 0x7f, 0x80, 0xff}))
+				}
+			}
+			return b
+		}
+		noff := 60
+		if env.Thorough {
+			noff = 3000
+		}
+		bad := map[string]bool{}
+		for it := 0; it < noff; it++ {
+			p := rng.PickInt([]int{1, 2, 3, 4, 5, 7, 8, 9, 16, 33})
+			pre, suf := rng.Bytes(p), rng.Bytes(rng.Intn(9))
+			for _, r := range readers {
+				fl := field(r.w)
+				buf := append(append(append([]byte{}, pre...), fl...), suf...)
+				var at0, atp string
+				oc := vh.Guard(func() { at0 = r.f(append([]byte{}, fl...), 0); atp = r.f(buf, p) })
+				rep.Count("offset-read")
+				if (!oc.OK() || at0 != atp) && !bad[r.name] {
+					bad[r.name] = true
+					rep.Fail("property", "offset:"+r.name, "the helper reads a field at offset p differently from the same field at offset 0",
+						map[string]interface{}{"helper": r.name, "field": vh.Hex(fl), "offset": p, "buffer": vh.Hex(buf), "at0": at0, "atOffset": atp, "panic": oc.Panic})
+				}
+				// independent reference for the two helpers no stream method uses
+				if r.name == "ToLong6" {
+					var want int64
+					for _, x := range fl {
+						want = want<<8 | int64(x)
+					}
+					if at0 != fmt.Sprint(want) && !bad["ToLong6:value"] {
+						bad["ToLong6:value"] = true
+						rep.Fail("property", "offset:ToLong6:value", "ToLong6 is not the unsigned big-endian value of its six bytes", map[string]interface{}{"field": vh.Hex(fl), "got": at0, "want": want})
+					}
+				}
+				if r.name == "ToBool" && at0 != fmt.Sprint(fl[0] != 0) && !bad["ToBool:value"] {
+					bad["ToBool:value"] = true
+					rep.Fail("property", "offset:ToBool:value", "ToBool is not `byte != 0`", map[string]interface{}{"field": vh.Hex(fl), "got": at0})
+				}
+			}
+			for _, w := range writers {
+				v := rng.U64()
+				if rng.Chance(30) {
+					v = uint64(rng.PickInt([]int{0, 1, 0x7f, 0x80, 0xff, 0x7fff, 0x8000, 0xffff})) << uint(8*rng.Intn(8))
+				}
+				before := append(append(append([]byte{}, pre...), rng.Bytes(w.w)...), suf...)
+				buf := append([]byte{}, before...)
+				var ret, enc []byte
+				oc := vh.Guard(func() { enc = w.enc(v); ret = w.set(buf, p, v) })
+				rep.Count("offset-write")
+				want := append(append(append([]byte{}, before[:p]...), enc...), before[p+w.w:]...)
+				if (!oc.OK() || !bytes.Equal(buf, want) || !bytes.Equal(ret, want)) && !bad[w.name] {
+					bad[w.name] = true
+					rep.Fail("property", "offset:"+w.name, "the packing helper does not write exactly its bytes at the offset (or touches other bytes / returns another buffer)",
+						map[string]interface{}{"helper": w.name, "value": v, "offset": p, "before": vh.Hex(before), "after": vh.Hex(buf), "returned": vh.Hex(ret), "want": vh.Hex(want), "panic": oc.Panic})
+				}
+			}
+		}
 	}
 
 	// 9. independent encoders/decoders used at the same time.  The property is stated per encoder;
